@@ -25,7 +25,8 @@ FORBIDDEN_TOKENS = r"sorry|admit|^axiom |native_decide|bv_decide|implemented_by|
 
 TRUSTED_BASE = [
     "Lean 4.33.0 kernel; axioms allowed in property theorems: propext, Classical.choice, Quot.sound (audited by #print axioms on every run)",
-    "the statements in lean/DoviModel/Props/*.lean and the syntax written in lean/DoviModel/Spec/*.lean",
+    "the statements in lean/DoviModel/Props/*.lean; the hand-written model lean/DoviModel/Model/*.lean is modelled, not verified: it is tied to /repo on every run by (a) the correspondence check and (b), for the data-driven syntax tables, the translator tools/gen_source_layouts.py + the theorems of Props/SourceTie.lean",
+    "independent statements of the intended behaviour used as direct oracles: vlib/specgen.py (RPU syntax, DESIGN.md Appendix B), vlib/hevcref.py (stream commands), vlib/xmlspec.py (CM XML formulas, exact rationals), the 60-digit ST 2084 evaluation in vlib/c19.py",
     "the correspondence check: harness/libcase (thin Rust executor around the real functions), lean/Driver (printer), vlib/*.py (generation, diff)",
     "modelled, not verified: third-party crates as pinned by /repo/Cargo.lock (bitstream-io, bitvec_helpers, crc, hevc_parser, serde_json, roxmltree, clap, hdr10plus, madvr_parse), the OS, IEEE-754/libm",
     "build profile dev (overflow checks and debug assertions on)",
